@@ -438,7 +438,7 @@ def check_round_protocol(ck, P, rid):
         core, neg = X.strip_bool(kids[0])
         bad = None
         unknown = False
-        for nthr in range(1, 9):
+        for nthr in range(1, 33 if getattr(ck, "tier", "quick") == "thorough" else 9):
             for v in range(0, nthr + 1):
                 # value of the condition with the load returning v
                 if core is a or (core.k == "AtomicExpr"):
@@ -468,7 +468,7 @@ def check_round_protocol(ck, P, rid):
             ck.violated(rid, inst, ifs.where, "with %d thread(s) and %s = %d a thread in %s %s, but it may go on exactly when the counter is %s: a thread leaves the rendezvous before all have sampled "
                         "(or none ever does)" % (bad[0], ctr, bad[1], case, "goes on" if bad[2] else "waits", "0" if when == "zero" else "the thread count"), cfg)
         else:
-            ck.holds(rid, inst, ifs.where, "goes on exactly when %s == %s (1..8 threads)" % (ctr, "0" if when == "zero" else "n_threads"), cfg)
+            ck.holds(rid, inst, ifs.where, "goes on exactly when %s == %s (1..%d threads)" % (ctr, "0" if when == "zero" else "n_threads", 32 if getattr(ck, "tier", "quick") == "thorough" else 8), cfg)
     ck.expect(rid, n, 4, "rendezvous tests of the thread-level reduction")
 
     g = P.fn("gvt_node_phase_run")
